@@ -123,7 +123,7 @@ class C17(Prop):
             "schema/name quoting), alone or between two tables whose column names are the sequence keywords; "
             "non-trivial = some sequence has >= 3 options including a negative value or one >= 2^31; "
             "distinct = SHA-1 of the case")
-    budgets = {"quick": 4000, "thorough": 70000}
+    budgets = {"quick": 9000, "thorough": 70000}
     assumptions = ["CACHE values are generated non-negative", "sequence names are not keyword-shaped (C06 covers what is claimed there)"]
 
     def strategy(self, tier):
